@@ -101,6 +101,15 @@ def register(reg):
     W(CL, "ClampInput2D.evaluate", "self._f.evaluate(cl(x, self._xmin, self._xmax), cl(y, self._ymin, self._ymax))", F2, req=nn('_f'), ghost=CLAMP)
     W(CL, "ClampInput3D.evaluate", "self._f.evaluate(cl(x, self._xmin, self._xmax), cl(y, self._ymin, self._ymax), cl(z, self._zmin, self._zmax))",
       F3, req=nn('_f'), ghost=CLAMP)
+    # ... and their constructors store the bounds THEY WERE GIVEN (0 is a bound like any other) and reject min >= max
+    for d in (1, 2, 3):
+        reg.contract(CL, "ClampOutput%dD.__init__" % d, PROP, sorts={"min": "real", "max": "real", "f": "ref:Function%dD!" % d},
+            raises={"ValueError": "min >= max"},
+            ensures=[("bounds_stored", "self._min == min and self._max == max"), ("function_stored", "same(self._f, f)")])
+        mins = ["xmin", "ymin", "zmin"][:d]; maxs = ["xmax", "ymax", "zmax"][:d]
+        reg.contract(CL, "ClampInput%dD.__init__" % d, PROP, sorts=dict({m: "real" for m in mins + maxs}, f="ref:Function%dD!" % d),
+            raises_any=["ValueError"],
+            ensures=[("bounds_stored", " and ".join("self._%s == %s" % (m, m) for m in mins + maxs)), ("function_stored", "same(self._f, f)")])
     # slices
     W(SL, "Slice2D.evaluate", "ite(self.axis == 0, self._function.evaluate(self.value, x), self._function.evaluate(x, self.value))", F1,
       req=nn('_function') + ["self.axis == 0 or self.axis == 1"])
